@@ -58,28 +58,15 @@ def same_value(v, snap):
     return v == val or (v != v and val != val)
 
 
-class SnapshotProblem:
+class SnapshotProblem(mon.ProxyProblem):
     """Proxy taking value snapshots of everything the user's callbacks return."""
 
     def __init__(self, inner, freeze=False):
-        self.inner = inner
-        self.var_lb = inner.var_lb
-        self.var_ub = inner.var_ub
-        self.cons_lb = inner.cons_lb
-        self.cons_ub = inner.cons_ub
-        self.num_cons = inner.num_cons
+        super().__init__(inner)
         self.snaps = {}      # id(obj) -> (obj, snapshot, component)
         self.corrupt = []    # (component, when)
         self.freeze = freeze
         self.handed = 0
-
-    @property
-    def num_vars(self):
-        return self.inner.num_vars
-
-    @property
-    def var_bounded(self):
-        return self.inner.var_bounded
 
     def _out(self, comp, v):
         self.handed += 1
